@@ -391,7 +391,7 @@ fn builders_and_proplists(rep: &Report) {
     // every name of the atom dictionary as a builder key and as an atom value: what reaches the wire is judged against
     // the string that was passed in (an oracle built with Atom::new would share a wrong name with the library)
     for name in crate::universe::atom_names(false) {
-        if name.len() > 255 { continue; }
+        if name.chars().count() > 255 { continue; }
         rep.add("evaluations", 1);
         let kw = KeywordListBuilder::new().put_term(&name, int(1)).put_term("v", OwnedTerm::atom(&name)).build();
         let mb = AtomKeyMapBuilder::new().insert_term(&name, int(1)).build();
